@@ -153,8 +153,11 @@ func platYAML(k string, d *PlatDef) []byte {
 	var b strings.Builder
 	b.WriteString("---\nplatform-type: 'c19_generated'\ndefault:\n")
 	if k == kPlatNet {
-		b.WriteString("  driver-type: 'network'\n  privilege-levels:\n")
+		b.WriteString("  driver-type: 'network'\n")
 		m := privPool(d.Privs)
+		if len(m) > 0 { // Privs == 3: the definition has no privilege-levels key at all
+			b.WriteString("  privilege-levels:\n")
+		}
 		var names []string
 		for n := range m {
 			names = append(names, n)
@@ -166,7 +169,9 @@ func platYAML(k string, d *PlatDef) []byte {
 				"      deescalate: %s\n      escalate: %s\n      escalate-auth: %v\n      escalate-prompt: %s\n",
 				n, yq(p.Name), yq(p.Pattern), yList(p.NotContains), yq(p.PreviousPriv), yq(p.Deescalate), yq(p.Escalate), p.EscalateAuth, yq(p.EscalatePrompt))
 		}
-		fmt.Fprintf(&b, "  default-desired-privilege-level: %s\n", yq(d.DDP))
+		if d.DDP != "" { // empty: the key is missing
+			fmt.Fprintf(&b, "  default-desired-privilege-level: %s\n", yq(d.DDP))
+		}
 	} else {
 		b.WriteString("  driver-type: 'generic'\n")
 	}
@@ -614,7 +619,7 @@ func expect(l List, p *pools) (*expectation, error) {
 		}
 		if ddp == "" || np == 0 {
 			e.mustReject = true
-			e.invalid = append(e.invalid, invalidOpt{"(network driver without privilege levels / default desired privilege)", errBad, true})
+			e.invalid = append(e.invalid, invalidOpt{"network-required-options", errBad, true})
 		}
 	}
 	if e.mustReject {
